@@ -13,6 +13,9 @@ struct TrapRec {
 void trapInit(const char *argv0);
 void trapArm();      // make library static storage read-only
 void trapDisarm();
+bool trapArmed();
+// runs f with the protected pages writable (no trap is recorded for what f stores) and puts the protection back
+void trapWithPagesWritable(void (*f)());
 void trapRearm();    // after a recorded trap re-opened the pages
 std::vector<TrapRec> trapTake();
 std::string trapSymbol(uintptr_t addr);
